@@ -6,6 +6,15 @@ def _load(n):
 # C11 H1/H2: the same container machinery with the crash point right after the header update
 # (write_header (calc_length = TRUE), which is what SFC_UPDATE_HEADER_NOW and the auto-update tail of sf_write_T call)
 HARNESSES = [h for h in _load("C04").rt_harnesses(update_now=True) if h.probe_for in (None, "vocupd")]
+# ... and with the write pointer seeked back to frame 0 at the moment of the update (the header must still describe N frames)
+import copy
+for h in list(HARNESSES):
+    if h.probe_for is None and (".ch1.n3" in h.name or ".ch2.n1" in h.name) and "quick" in h.tiers or (h.probe_for is None and ".ch1.n3" in h.name and h.name.split(".")[2] in ("wav", "aiff", "au", "w64", "voc", "svx", "mat4", "avr", "htk", "mpc2k")):
+        g = copy.copy(h)
+        g.name = h.name + ".wptr0"
+        g.defines = dict(h.defines); g.defines["WPTR_BACK"] = 1
+        g.tiers = ("quick", "thorough") if h.name.split(".")[2] not in ("caf", "nist", "paf", "ircam", "mat5", "pvf", "wavex", "rf64") else ("thorough",)
+        HARNESSES.append(g)
 # the wrappers' part: header rewritten after every write iff auto-update is on, frame count/dataend bookkeeping (C05 wrappers)
 HARNESSES += [h for h in _load("C05").HARNESSES if h.name.startswith("wrap.write") and ".ch2" in h.name]
 META = {"assumptions": ["crash image = memory-file content at the instant the update returns"],
